@@ -75,11 +75,16 @@ def jobs(tier, seed):
     stride = 2 if tier == 'quick' else 1
     for name in http_seeds():
         js.append(dict(kind='http', seed=name, stride=stride, bytewise=(tier != 'quick')))
-    js.append(dict(kind='http2', seed='status-line', full=(tier != 'quick')))
-    js.append(dict(kind='http2', seed='chunk-size', full=(tier != 'quick')))
+    nsh = 1 if tier == 'quick' else 16
+    for sh in range(nsh):
+        js.append(dict(kind='http2', seed='status-line', full=(tier != 'quick'), shard=[sh, nsh]))
+        js.append(dict(kind='http2', seed='chunk-size', full=(tier != 'quick'), shard=[sh, nsh]))
     for key in FTP_REPLY_KEYS:
-        js.append(dict(kind='ftp-reply', key=key, two=(tier != 'quick' and key in
-                                                       ('pasv', 'size'))))
+        js.append(dict(kind='ftp-reply', key=key, two=False))
+    if tier != 'quick':
+        for key in ('size', 'user', 'retr_end'):
+            for sh in range(16):
+                js.append(dict(kind='ftp-reply', key=key, two=True, shard=[sh, 16]))
     for d in LISTINGS:
         js.append(dict(kind='ftp-listing', dialect=d, stride=stride))
     js.append(dict(kind='robots', stride=1))
@@ -90,6 +95,13 @@ def jobs(tier, seed):
         k = seed % len(js)
         js = js[k:] + js[:k]
     return js
+
+
+def shard_of(gen, shard):
+    if not shard:
+        return gen
+    k, n = shard
+    return (x for i, x in enumerate(gen) if i % n == k)
 
 
 def is_remote(name):
@@ -255,6 +267,7 @@ def run_job(job):
             post = b'hi\r\n0\r\n\r\n'
             gen = ((l, pre + d + post) for l, d in mutate.two_edits(b'2;x=y\r\n', job.get('full')))
         n = 0
+        gen = shard_of(gen, job.get('shard'))
         for label, data in gen:
             v = run_http_case(data)
             res['evaluations'] += 1
@@ -270,6 +283,7 @@ def run_job(job):
         seed = FTP_REPLY_KEYS[job['key']].encode('latin-1')
         gen = mutate.two_edits(seed, True) if job.get('two') else mutate.one_edits(seed)
         n = 0
+        gen = shard_of(gen, job.get('shard'))
         for label, data in gen:
             script = {'data': 'hello', job['key']: data.decode('latin-1')}
             v = run_ftp_case(script, 'file')
@@ -409,7 +423,7 @@ def describe(tier):
              'every position (quick: every 2nd for long seeds) x {delete, truncate here, '
              'replace by / insert each of 24 bytes (NUL CR LF SP HT : ; - = , ( ) < > & %% 0 9 x '
              'F 80 85 C3 FF)}, every line duplicated / removed, all 2-edit combinations for the '
-             'status line and a chunk-size line (thorough: PASV and SIZE replies too); HTTP '
+             'status line and a chunk-size line (thorough: SIZE, USER and final RETR replies too); HTTP '
              'streams delivered whole (thorough: also byte-at-a-time).  Oracle: the call returns '
              'or raises one of the per-URL error kinds; scrapers raise nothing; plus %d '
              'end-to-end crawls where a hostile response must leave exit status != crash and '
